@@ -192,3 +192,55 @@ Proof.
   - vm_compute. reflexivity.
   - intros j [<-|[<-|[]]]; vm_compute; reflexivity.
 Qed.
+
+(* ---- the level is exactly zero there: the lower level rows are untouched by the option ---- *)
+Lemma st_rows_nth_lo p n dt t d : (t < n)%nat ->
+  nth (n + t) (st_rows p n dt) d = {| r_a := st_arow p n t; r_t := RL; r_b := st_blo p n dt t |}.
+Proof.
+  intros Ht. unfold st_rows. rewrite app_nth2 by (rewrite map_length, seq_length; lia).
+  rewrite map_length, seq_length. replace (n + t - n)%nat with t by lia.
+  apply (nth_map_seq (fun i => {| r_a := st_arow p n i; r_t := RL; r_b := st_blo p n dt i |})). exact Ht.
+Qed.
+
+Lemma rows1_lo_in p n dt m t : (t < n)%nat ->
+  In {| r_a := st_arow p n t; r_t := RL; r_b := st_blo p n dt t |} (md_rows1 m n (st_rows p n dt)).
+Proof.
+  intros Ht. unfold md_rows1. apply in_map_iff.
+  exists ((n + t)%nat, {| r_a := st_arow p n t; r_t := RL; r_b := st_blo p n dt t |}). split.
+  - cbn [fst snd]. assert (E : Nat.ltb (n + t) n = false) by (apply Nat.ltb_ge; lia). rewrite E. reflexivity.
+  - pose proof (combine_seq_in (st_rows p n dt) {| r_a := []; r_t := RU; r_b := 0 |} 0 (n + t)) as H.
+    rewrite st_rows_length in H. specialize (H ltac:(lia)).
+    rewrite st_rows_nth_lo in H by exact Ht. cbn [Nat.add] in H. rewrite st_rows_length. exact H.
+Qed.
+
+(* the lower level rows are untouched by the holding-duration option: the level is never below zero (end level >= 0) *)
+Lemma dur_level_nonneg p n m dt x md : n = List.length dt -> sp_start p == 0 -> sp_inflow p == 0 -> 0 <= sp_end p ->
+  Forall (row_ok x) (md_rows1 m n (st_rows p n dt) ++ flat_map (md_win m dt md) (seq 0 n)) ->
+  forall t, (t < n)%nat -> 0 <= level p n dt x t.
+Proof.
+  intros Hn Hs Hi He Hr t Ht. apply Forall_app in Hr. destruct Hr as [H1 _]. rewrite Forall_forall in H1.
+  specialize (H1 _ (rows1_lo_in p n dt m t Ht)). unfold row_ok in H1. cbn [r_t r_a r_b] in H1.
+  rewrite arow_sdot in H1. unfold st_blo in H1.
+  assert (I0 : nth t (st_inflow p dt) 0 == 0).
+  { rewrite inflow_nth by lia. generalize (firstn (S t) dt). intros l. induction l as [|d l IH]; cbn [map qsum]; [reflexivity|]. rewrite IH, Hi. ring. }
+  assert (Z0 : qsum (map (fun d => sp_inflow p * d) (firstn (S t) dt)) == 0).
+  { generalize (firstn (S t) dt). intros l. induction l as [|d l IH]; cbn [map qsum]; [reflexivity|]. rewrite IH, Hi. ring. }
+  unfold level. rewrite Z0. destruct (Nat.eqb (S t) n); rewrite Qred_correct in H1; lra.
+Qed.
+
+Theorem storage_holding_duration_zero g rg p a md :
+  storage g rg p = Some a -> sp_no_simult p = false -> sp_max_dur p = Some md -> rg_T rg <> 0%nat ->
+  List.length (rg_dt rg) = rg_T rg -> sp_start p == 0 -> sp_inflow p == 0 -> 0 <= sp_end p ->
+  exists m, forall x,
+    Forall (row_ok x) (lp_rows (ap_lp a)) ->
+    (forall t, (t < rg_T rg)%nat -> nth (m + t) x 0 == 0 \/ nth (m + t) x 0 == 1) ->
+    forall i js, (i < rg_T rg)%nat -> md_js (rg_dt rg) md i = Some js ->
+      exists j, In j js /\ (i + j < rg_T rg)%nat /\ level p (rg_T rg) (rg_dt rg) x (i + j) == 0.
+Proof.
+  intros H Hs Hm Hn Hl H0 Hi He. destruct (storage_dur_shape g rg p a md H Hs Hm Hn) as (m & E).
+  exists m. intros x Hr Hb i js Hi' Hjs. rewrite E in Hr.
+  destruct (window_has_empty_step p (rg_T rg) m (rg_dt rg) x md (eq_sym Hl) H0 Hi Hr Hb i js Hi' Hjs) as (j & Hj & Hlt & Hle).
+  exists j. split; [exact Hj|]. split; [exact Hlt|].
+  pose proof (dur_level_nonneg p (rg_T rg) m (rg_dt rg) x md (eq_sym Hl) H0 Hi He Hr (i + j)%nat Hlt) as Hge.
+  apply Qle_antisym; assumption.
+Qed.
